@@ -18,7 +18,8 @@ from vf.qlib import *  # noqa
 INFO = {
     'explanation': 'Adapter obligations: for EVERY rectangular table of 1-character strings (any Unicode except CR/LF) the four entry points agree on rows (values compared as strings) and header. '
                    'CLI obligations: for EVERY stub outcome (success with 0..2 warnings; each error class with each message of a finite set) the contract holds for the concrete argv.',
-    'bounds': 'tables 2x2 / 3x2 of 1-character strings, join table 2x2; 12 type-agnostic queries; 14 argv variants x 5 outcome classes x 0..2 warnings x 3 messages',
+    'bounds': 'tables 2x2 / 3x2 of 1-character strings, join table 2x2; 12 type-agnostic queries; 14 argv variants x 5 outcome classes x 0..2 warnings x 3 messages'
+        '; list front-ends in sequence over the same table objects (4 queries); stdin -> stdout / file bytes through the real encoding layers, latin-1 and utf-8, cells from a 4-member pool',
     'outside': 'real subprocess / stdin / stdout plumbing, files on disk, pandas dataframes, sqlite databases, header presence other than equalised "no header"',
     'assumptions': ['print() of rbql_main rebound to a pure-Python print (CrossHair swallows the builtin); sys of rbql_main replaced by a recording namespace',
                     'error / warning messages range over a finite set (an exception carrying a symbolic string is concretised by the engine)'],
